@@ -133,6 +133,77 @@ def _require(fn, where, stmts):
             raise TranslateError(f'{where}: statement not found: {s}')
 
 
+def _require_body(fn, where, expected, loose=()):
+    """The WHOLE body (docstring and comments aside) must be exactly the expected statement
+    sequence -- an added branch (e.g. a fast path before the pinned statements) is refused.
+    Indices in `loose` must be an `if` that assigns / returns nothing (validation only)."""
+    body = _body_wo_doc(fn)
+    if len(body) != len(expected):
+        raise TranslateError(f'{where}: body has {len(body)} statements, expected {len(expected)} '
+                             f'(first unexpected: {_u(body[min(len(body), len(expected)) - 1])[:80]!r})')
+    for i, (st, exp) in enumerate(zip(body, expected)):
+        if i in loose:
+            if not isinstance(st, ast.If) or any(
+                    isinstance(n, (ast.Assign, ast.AugAssign, ast.AnnAssign, ast.Return, ast.Call))
+                    and not (isinstance(n, ast.Call) and _u(n.func) in ('warnings.warn', 'ValueError'))
+                    for n in ast.walk(st)):
+                raise TranslateError(f'{where}: statement {i} is not a pure validation if')
+            continue
+        if _u(st) != _u(ast.parse(exp).body[0]):
+            raise TranslateError(f'{where}: statement {i} is {_u(st)[:120]!r}, expected {exp[:120]!r}')
+
+
+SOLVE_SIG = (['self', 'y', 'weights', 'penalty', 'rhs_extra', 'assume_a'], ['None', 'None', "'pos'"])
+SOLVE_BODY = [
+    'if not self._using_svd:\n    return super().solve(y, weights, penalty, rhs_extra)',
+    'rhs = (self.basis_r.T @ (weights * y) @ self.basis_c).ravel()',
+    'if rhs_extra is not None:\n    rhs = rhs + rhs_extra',
+    'if penalty is None:\n    penalty = self.penalty',
+    'lhs = self._make_btwb(weights)',
+    'np.fill_diagonal(lhs, lhs.diagonal() + penalty)',
+    'self.coef = solve(lhs, rhs, lower=True, overwrite_a=True, overwrite_b=True, '
+    'check_finite=False, assume_a=assume_a)',
+    'output = self.basis_r @ self.coef.reshape(self._num_bases) @ self.basis_c.T',
+    'return output',
+]
+DOF_SIG = (['self', 'weights', 'assume_a'], ["'pos'"])
+DOF_BODY = [
+    "if not self._using_svd:\n    raise ValueError('Cannot calculate degrees of freedom when not "
+    "using eigendecomposition')",
+    'lhs = self._make_btwb(weights)',
+    'rhs = lhs.copy()',
+    'np.fill_diagonal(lhs, lhs.diagonal() + self.penalty)',
+    'dof = solve(lhs, rhs, lower=True, overwrite_a=True, overwrite_b=True, check_finite=False, '
+    'assume_a=assume_a)',
+    'return dof.diagonal().reshape(self._num_bases)',
+]
+EIG_BODY = [
+    'penalty_bands = diff_penalty_diagonals(data_points, diff_order, lower_only=True)',
+    None,   # validation if (messages free)
+    "if diff_order == 1:\n    eigenvalues, eigenvectors = eigh_tridiagonal(penalty_bands[0], "
+    "penalty_bands[1, :-1], select='i', select_range=(0, num_eigens - 1))\nelse:\n    "
+    "eigenvalues, eigenvectors = eig_banded(penalty_bands, lower=True, select='i', "
+    "select_range=(0, num_eigens - 1), overwrite_a_band=True)",
+    'eigenvalues[:diff_order] = 0',
+    'return (eigenvalues, eigenvectors)',
+]
+UPD_BODY = [
+    "if not self._using_svd:\n    raise ValueError('Must call reset_diagonals if not using "
+    "eigendecomposition')",
+    'lam = _check_lam(lam, two_d=True)',
+    'self.penalty_rows = lam[0] / self.lam[0] * self.penalty_rows',
+    'self.penalty_columns = lam[1] / self.lam[1] * self.penalty_columns',
+    'self.lam = lam',
+    'self.penalty = self.penalty_rows + self.penalty_columns',
+]
+
+
+def _sig(fn, where, sig):
+    got = ([a.arg for a in fn.args.args], [_u(d) for d in fn.args.defaults])
+    if got != sig or fn.args.vararg or fn.args.kwarg or fn.args.kwonlyargs or fn.decorator_list:
+        raise TranslateError(f'{where}: signature/decorators changed: {got}')
+
+
 def _penalty(tree):
     fn = _method(tree, 'WhittakerSystem2D', 'reset_diagonals')
     rep = til = None
@@ -152,26 +223,44 @@ def _penalty(tree):
                 til = _nb_index(v.args[1])
     if rep is None or til is None:
         raise TranslateError('reset_diagonals: repeat/tile penalty not found')
-    _require(fn, 'WhittakerSystem2D.reset_diagonals', [
+    _sig(fn, 'WhittakerSystem2D.reset_diagonals', (['self', 'lam', 'diff_order'], ['1', '2']))
+    _require_body(fn, 'WhittakerSystem2D.reset_diagonals', [
+        'if not self._using_svd:\n    super().reset_diagonals(lam, diff_order)\n    return',
+        "self.diff_order = _check_scalar_variable(diff_order, allow_zero=False, "
+        "variable_name='difference order', two_d=True, dtype=int)",
+        'self.lam = _check_lam(lam, two_d=True)',
+        'values_rows, vectors_rows = self._calc_eigenvalues(self._num_points[0], '
+        'self.diff_order[0], self._num_bases[0])',
+        'if self.diff_order[0] == self.diff_order[1] and self._num_points[0] == self._num_points[1] '
+        'and (self._num_bases[0] == self._num_bases[1]):\n'
+        '    values_columns, vectors_columns = (values_rows, vectors_rows)\nelse:\n'
+        '    values_columns, vectors_columns = self._calc_eigenvalues(self._num_points[1], '
+        'self.diff_order[1], self._num_bases[1])',
+        f'self.penalty_rows = np.repeat(self.lam[0] * values_rows, self._num_bases[{rep}])',
+        f'self.penalty_columns = np.tile(self.lam[1] * values_columns, self._num_bases[{til}])',
         'self.penalty = self.penalty_rows + self.penalty_columns',
         'self.basis_r = vectors_rows',
         'self.basis_c = vectors_columns',
         'self._G_r = _face_splitting(self.basis_r)',
         'self._G_c = _face_splitting(self.basis_c)',
-        'values_rows, vectors_rows = self._calc_eigenvalues(self._num_points[0], '
-        'self.diff_order[0], self._num_bases[0])',
-        'values_columns, vectors_columns = self._calc_eigenvalues(self._num_points[1], '
-        'self.diff_order[1], self._num_bases[1])',
     ])
-    _require(_method(tree, 'WhittakerSystem2D', '_calc_eigenvalues'),
-             'WhittakerSystem2D._calc_eigenvalues', ['eigenvalues[:diff_order] = 0',
-                                                     'return (eigenvalues, eigenvectors)'])
-    _require(_method(tree, 'WhittakerSystem2D', 'solve'), 'WhittakerSystem2D.solve', [
-        'rhs = (self.basis_r.T @ (weights * y) @ self.basis_c).ravel()',
-        'lhs = self._make_btwb(weights)',
-        'np.fill_diagonal(lhs, lhs.diagonal() + penalty)',
-        'output = self.basis_r @ self.coef.reshape(self._num_bases) @ self.basis_c.T',
-    ])
+    fn = _method(tree, 'WhittakerSystem2D', '_calc_eigenvalues')
+    _sig(fn, 'WhittakerSystem2D._calc_eigenvalues', (['self', 'data_points', 'diff_order', 'num_eigens'], []))
+    _require_body(fn, 'WhittakerSystem2D._calc_eigenvalues', [e or 'pass' for e in EIG_BODY], loose=(1,))
+    fn = _method(tree, 'WhittakerSystem2D', 'solve')
+    _sig(fn, 'WhittakerSystem2D.solve', SOLVE_SIG)
+    _require_body(fn, 'WhittakerSystem2D.solve', SOLVE_BODY)
+    fn = _method(tree, 'WhittakerSystem2D', '_calc_dof')
+    _sig(fn, 'WhittakerSystem2D._calc_dof', DOF_SIG)
+    _require_body(fn, 'WhittakerSystem2D._calc_dof', DOF_BODY)
+    fn = _method(tree, 'WhittakerSystem2D', 'update_penalty')
+    _sig(fn, 'WhittakerSystem2D.update_penalty', (['self', 'lam'], []))
+    _require_body(fn, 'WhittakerSystem2D.update_penalty', UPD_BODY)
+    # `solve` inside the class must be scipy.linalg.solve, nothing may rebind these names
+    imp = [n for n in ast.walk(tree) if isinstance(n, ast.ImportFrom) and n.module == 'scipy.linalg']
+    names = sorted(a.name for n in imp for a in n.names if a.asname is None)
+    if not {'eig_banded', 'eigh_tridiagonal', 'solve'} <= set(names):
+        raise TranslateError(f'scipy.linalg imports are {names}')
     return rep, til
 
 
